@@ -7,6 +7,7 @@ import (
 	"math/rand"
 	"sort"
 	"strconv"
+	"strings"
 
 	"github.com/ldclabs/cose/key"
 )
@@ -43,6 +44,52 @@ func execMap(op string, a []string) string {
 			return "ok " + hx(out) + " REUSED-DESTINATION-DIFFERS " + hx(out2)
 		}
 		return "ok " + hx(out)
+	case "map.getmap":
+		// map.getmap <value>: GetMap on {1: value} through CoseMap and the typed views; a label map given as a plain Go map
+		// (what a generic decoder produces) goes through the reflection path, which normalises / refuses the labels
+		m := key.CoseMap{}
+		if a[0] != "a" {
+			v, _ := parseVal(a, 0)
+			if cmv, ok := v.(key.CoseMap); ok {
+				v = map[any]any(cmv)
+			}
+			m[1] = v
+		}
+		f := func(im key.CoseMap, err error) string {
+			if err != nil {
+				return "err"
+			}
+			if im == nil {
+				return "ok nil"
+			}
+			var ks []string
+			for k := range im {
+				switch x := k.(type) {
+				case int:
+					ks = append(ks, "int:"+strconv.Itoa(x))
+				case string:
+					ks = append(ks, "t:"+hx([]byte(x)))
+				default:
+					ks = append(ks, "other")
+				}
+			}
+			sort.Strings(ks)
+			if len(ks) == 0 {
+				return "ok empty"
+			}
+			return "ok " + strings.Join(ks, ",")
+		}
+		ans := f(m.GetMap(1))
+		if o := f(cose.Headers(m).GetMap(1)); o != ans {
+			return "WRAPPER-DISAGREES " + ans + " vs " + o
+		}
+		if o := f(cwt.ClaimsMap(m).GetMap(1)); o != ans {
+			return "WRAPPER-DISAGREES " + ans + " vs " + o
+		}
+		if o := f(m.GetMap(2)); o != "ok nil" {
+			return "ABSENT-NOT-NIL"
+		}
+		return ans
 	case "map.toint":
 		v, _ := parseVal(a, 0)
 		n, err := key.ToInt(v)
@@ -96,7 +143,17 @@ func execMap(op string, a []string) string {
 	case "map.set":
 		// map.set <label value> : does Set accept the label?  answer: normalised label
 		mm := key.CoseMap{}
-		if err := mm.Set(mustVal(a), 7); err != nil {
+		// the typed views set through the same function: same acceptance, same encoding afterwards
+		hv, cv, kv := cose.Headers{}, cwt.ClaimsMap{}, key.Key{}
+		e0, e1, e2, e3 := mm.Set(mustVal(a), 7), hv.Set(mustVal(a), 7), cv.Set(mustVal(a), 7), kv.Set(mustVal(a), 7)
+		if (e0 == nil) != (e1 == nil) || (e0 == nil) != (e2 == nil) || (e0 == nil) != (e3 == nil) {
+			return "WRAPPER-DISAGREES Set"
+		}
+		if e0 == nil && (string(hv.Bytesify()) != string(mm.Bytesify()) || string(cv.Bytesify()) != string(mm.Bytesify()) ||
+			string(kv.Bytesify()) != string(mm.Bytesify()) || len(mm.Bytesify()) == 0) {
+			return "WRAPPER-DISAGREES Bytesify"
+		}
+		if err := e0; err != nil {
 			return "err"
 		}
 		var ks []string
@@ -139,11 +196,44 @@ func genMap(r *rand.Rand, n int) []string {
 			return genValTok(r, 1)
 		}
 	}
-	accs := []string{"map.getint", "map.getint64", "map.getuint64", "map.getbytes", "map.getbool", "map.getstring", "map.toint", "map.set"}
+	accs := []string{"map.getint", "map.getint64", "map.getuint64", "map.getbytes", "map.getbool", "map.getstring", "map.toint", "map.set", "map.getmap"}
 	for i := 0; i < n; i++ {
 		// accessor op
 		op := accs[r.Intn(len(accs))]
-		if r.Intn(15) == 0 && op != "map.toint" && op != "map.set" {
+		if op == "map.getmap" && r.Intn(4) != 0 { // a label map whose labels come in every Go kind, in and out of range
+			toks := []string{"{"}
+			used := map[string]bool{}
+			for j := r.Intn(5); j > 0; j-- {
+				var l, id string
+				switch r.Intn(6) {
+				case 0:
+					tx := textSamples[r.Intn(len(textSamples))]
+					l, id = "t:"+hx(tx), "t"+string(tx)
+				case 1:
+					v := []int64{1 << 31, -(1 << 31) - 1, 1<<31 - 1, -(1 << 31), 1 << 40}[r.Intn(5)]
+					l, id = "i64:"+strconv.FormatInt(v, 10), strconv.FormatInt(v, 10)
+				case 2:
+					v := []uint64{1 << 31, 1<<31 - 1, 1<<64 - 1}[r.Intn(3)]
+					l, id = "u64:"+strconv.FormatUint(v, 10), strconv.FormatUint(v, 10)
+				default:
+					v := int64(r.Intn(60) - 20)
+					kinds := []string{"int", "i8", "i16", "i32", "i64", "alg"}
+					if v >= 0 {
+						kinds = append(kinds, "u", "u8", "u16", "u32", "u64")
+					}
+					l, id = kinds[r.Intn(len(kinds))]+":"+strconv.FormatInt(v, 10), strconv.FormatInt(v, 10)
+				}
+				if used[id] {
+					continue
+				}
+				used[id] = true
+				toks = append(toks, l, scalar())
+			}
+			if r.Intn(12) == 0 { // a label of a kind that is none
+				toks = append(toks, []string{"T", "nil", "f:1.5", "F"}[r.Intn(4)], "int:1")
+			}
+			out = append(out, op+" "+strings.Join(append(toks, "}"), " "))
+		} else if r.Intn(15) == 0 && op != "map.toint" && op != "map.set" {
 			out = append(out, op+" a")
 		} else {
 			out = append(out, op+" "+scalar())
